@@ -33,12 +33,13 @@ var kindMethods = []string{world.MethodNewBlocks, world.MethodNewPubkey, world.M
 func threshold(n int) int { return (2*(n+1) + 2) / 3 }
 
 // userScript is the withdrawal script of model user i (P2WPKH).
+// users 2k and 2k+1 share one address (so that two withdrawals of one batch can pay the same script)
 func userScript(i uint64) []byte {
-	return world.P2WPKHScript(world.Hash160([]byte(fmt.Sprintf("user-%d", i))))
+	return world.P2WPKHScript(world.Hash160([]byte(fmt.Sprintf("user-%d", i&^1))))
 }
 
 func userAddress(i uint64) string {
-	a, err := bech32SegwitAddr("bcrt", 0, world.Hash160([]byte(fmt.Sprintf("user-%d", i))))
+	a, err := bech32SegwitAddr("bcrt", 0, world.Hash160([]byte(fmt.Sprintf("user-%d", i&^1))))
 	if err != nil {
 		panic(err)
 	}
@@ -183,6 +184,9 @@ func (f *voteFixture) bodyProcess() voteBody {
 		panic("fixture ran out of pending withdrawals")
 	}
 	ids := []uint64{f.pending[0]}
+	if len(f.pending) >= 2 && f.pending[0]%2 == 0 && f.pending[1] == f.pending[0]+1 && f.salt%3 != 0 {
+		ids = append(ids, f.pending[1]) // a batch of two withdrawals to the same address
+	}
 	tx := f.withdrawTx(ids, f.salt%2 == 0)
 	return voteBody{kind: kindProcess, ids: ids, tx: tx, fee: uint64(len(tx))} // 1 sat/byte
 }
@@ -359,6 +363,9 @@ func tamperBody(b voteBody, which int) voteBody {
 			default:
 				c.hashes[which%len(b.hashes)] = flip(b.hashes[which%len(b.hashes)], which)
 			}
+		case which == 7 && len(b.hashes) >= 2:
+			// the same bytes cut differently: the first two hashes as one 64-byte entry followed by an empty one
+			c.hashes = append([][]byte{append(append([]byte{}, b.hashes[0]...), b.hashes[1]...), {}}, b.hashes[2:]...)
 		case which%3 == 1:
 			c.hashes = append(append([][]byte{}, b.hashes...), world.DSha([]byte{byte(which)}))
 		default:
@@ -371,8 +378,11 @@ func tamperBody(b voteBody, which int) voteBody {
 	case kindPubkey:
 		c.pubkey = world.NewBtcKey(5000+which, which%2 == 0).Public()
 	case kindProcess:
-		switch which % 2 {
-		case 0:
+		switch {
+		case which%3 == 2 && len(b.ids) >= 2:
+			// the voted ids in another order (same transaction, same fee)
+			c.ids = append([]uint64{b.ids[1], b.ids[0]}, b.ids[2:]...)
+		case which%2 == 0:
 			c.fee = b.fee - 1
 		default:
 			c.fee = b.fee + 1
